@@ -604,3 +604,103 @@ Section GAlt.
     - apply IH. inversion Hm; assumption.
   Qed.
 End GAlt.
+
+(* ---- closure under nesting: (?: ... ) groups.  A factor may itself be a group, i.e. anything that denotes positions from
+   some fuel on; sequences (make_cat) and alternations (make_alt) of such factors denote positions again, with explicit
+   fuel bounds, so the construction can be iterated to any nesting depth ---- *)
+Section Nest.
+  Variable foldf : N -> bool -> N.
+  Variables unicode utf16 : bool.
+  Variable cs : list (list N).
+  Variable eqclass : N -> list N.
+  Notation canon := (fun x => fold_code_point x unicode).
+  Notation u8 := (utf8_indexer foldf).
+  Notation ES := (es_results canon eqclass (map dec cs)).
+  Notation IR := (ir_results u8 unicode utf16 (concat cs)).
+  Notation den := (den foldf unicode utf16 cs eqclass).
+
+  Definition insideP (P : nat -> list nat) : Prop := forall i, (i <= length cs)%nat -> Forall (fun j => (j <= length cs)%nat) (P i).
+  Definition gden (r : regex) (n : node) (P : nat -> list nat) (kr kn : nat) : Prop := den r n P kr kn /\ insideP P.
+
+  Lemma gatom_gden r n P : gatom foldf unicode utf16 cs eqclass r n P -> gden r n P 0 0.
+  Proof. intros (Hr & Hn & Hi). split; [split; [intros f x _; apply Hr|intros f i G _ Hl; apply Hn; exact Hl]|exact Hi]. Qed.
+
+  Lemma gden_weaken r n P kr kn kr' kn' : (kr <= kr')%nat -> (kn <= kn')%nat -> gden r n P kr kn -> gden r n P kr' kn'.
+  Proof. intros H1 H2 [Hd Hi]. split; [eapply den_weaken; eauto|exact Hi]. Qed.
+
+  Lemma gchain_inside Ps : Forall insideP Ps -> forall l, Forall (fun j => (j <= length cs)%nat) l -> Forall (fun j => (j <= length cs)%nat) (gchain Ps l).
+  Proof.
+    induction 1 as [|P Ps HP HPs IH]; intros l Hl; cbn [gchain]; [exact Hl|]. apply IH.
+    clear - HP Hl. induction l as [|j l IHl]; [constructor|]. cbn [flat_map]. inversion Hl; subst. apply Forall_app. split; [apply HP; assumption|apply IHl; assumption].
+  Qed.
+
+  (* the reference side of a sequence of factors that work from fuel k on *)
+  Lemma es_nsequence k : forall rs Ps, Forall2 (fun r P => forall f (x : mstate), (k <= f)%nat -> ES (S f) r Fwd x = Some (lift P x)) rs Ps ->
+    forall f (x : mstate), (k + length rs <= f)%nat -> ES (S f) (seq_of rs) Fwd x = Some (lift (fun i => gchain Ps [i]) x).
+  Proof.
+    induction 1 as [|r P rs Ps Hr Hrest IH]; intros f x Hf.
+    - destruct x as [p c]. reflexivity.
+    - destruct rs as [|r2 rs'].
+      + inversion Hrest; subst. cbn [seq_of]. rewrite Hr by (cbn [length] in Hf; lia). unfold lift. cbn [gchain flat_map]. rewrite app_nil_r. reflexivity.
+      + cbn [length] in Hf. destruct f as [|f0]; [lia|].
+        change (seq_of (r :: r2 :: rs')) with (RSeq r (seq_of (r2 :: rs'))). rewrite (es_seq_unfold unicode cs eqclass). rewrite (Hr f0 x) by lia.
+        rewrite (obind_all (ES (S f0) (seq_of (r2 :: rs')) Fwd) (fun y => lift (fun i => gchain Ps [i]) y)) by (intros y; apply IH; cbn [length] in *; lia).
+        f_equal. unfold lift. cbn [gchain flat_map]. rewrite app_nil_r. rewrite (gchain_flat Ps (P (fst x))).
+        destruct x as [p c]. cbn [fst snd]. generalize (P p). intros l. induction l as [|j l IHl]; [reflexivity|].
+        cbn [map flat_map]. rewrite map_app, IHl. reflexivity.
+  Qed.
+
+  Lemma ir_nsequence k : forall ns Ps, Forall2 (fun n P => (forall f i (G : list groupdata), (k <= f)%nat -> (i <= length cs)%nat ->
+      IR (S f) n true (off cs i, G) = Some (map (phi cs) (lift P (i, G)))) /\ insideP P) ns Ps ->
+    forall f (l : list nat) (G : list groupdata), (k <= f)%nat -> Forall (fun j => (j <= length cs)%nat) l ->
+      cat_results (fun c => IR (S f) c true) ns (map (phi cs) (map (fun j => (j, G)) l)) = Some (map (phi cs) (map (fun j => (j, G)) (gchain Ps l))).
+  Proof.
+    induction 1 as [|n P ns Ps [Hn Hin] Hrest IH]; intros f l G Hf Hl; cbn [cat_results gchain]; [reflexivity|].
+    rewrite (obindm_mapped cs _ (lift P)).
+    - rewrite (lift_flat_mst P l G). apply IH; [exact Hf|]. clear - Hl Hin. induction l as [|j l IHl]; [constructor|]. cbn [flat_map]. inversion Hl; subst.
+      apply Forall_app. split; [apply Hin; assumption|apply IHl; assumption].
+    - intros [i G0] Hy. apply in_map_iff in Hy as (j & Ej & Hj). inversion Ej; subst. rewrite Forall_forall in Hl. specialize (Hl _ Hj).
+      unfold phi at 1. cbn [fst snd]. apply Hn; [exact Hf|exact Hl].
+  Qed.
+
+  (* a term of factors, as make_cat builds it *)
+  Theorem nested_term kr kn : forall rs ns Ps, Forall3 (fun r n P => gden r n P kr kn) rs ns Ps ->
+    gden (seq_of rs) (make_cat ns) (fun i => gchain Ps [i]) (kr + length rs) (kn + 1).
+  Proof.
+    intros rs ns Ps H3.
+    assert (HI : Forall insideP Ps) by (clear - H3; induction H3 as [|r n P rs ns Ps [_ Hi] _ IH]; constructor; assumption).
+    split; [|intros i Hi; apply gchain_inside; [exact HI|constructor; [exact Hi|constructor]]].
+    destruct H3 as [|r n P rs ns Ps Ha Hrest].
+    - cbn [seq_of make_cat gchain length]. split; [intros f [p c] _; reflexivity|intros f i G _ _; reflexivity].
+    - destruct Hrest as [|r2 n2 P2 rs ns Ps Ha2 Hrest].
+      + cbn [seq_of make_cat length]. destruct Ha as [[Hr Hn] _]. split.
+        * intros f x Hf. rewrite Hr by lia. unfold lift. cbn [gchain flat_map]. rewrite app_nil_r. reflexivity.
+        * intros f i G Hf Hi. rewrite (Hn f i G ltac:(lia) Hi). unfold lift. cbn [gchain flat_map fst]. rewrite app_nil_r. reflexivity.
+      + change (make_cat (n :: n2 :: ns)) with (NCat (n :: n2 :: ns)).
+        assert (H3' : Forall3 (fun r n P => gden r n P kr kn) (r :: r2 :: rs) (n :: n2 :: ns) (P :: P2 :: Ps)) by (constructor; [exact Ha|constructor; assumption]).
+        split.
+        * intros f x Hf. apply (es_nsequence kr); [|exact Hf]. clear - H3'. induction H3' as [|r0 n0 P0 rs0 ns0 Ps0 [[Hr0 _] _] _ IH]; constructor; assumption.
+        * intros f i G Hf Hi. destruct f as [|f']; [lia|]. rewrite (cat_unfold foldf unicode utf16 cs).
+          change [(off cs i, G)] with (map (phi cs) (map (fun j => (j, G)) [i])). rewrite (ir_nsequence kn (n :: n2 :: ns) (P :: P2 :: Ps)).
+          -- reflexivity.
+          -- clear - H3'. induction H3' as [|r0 n0 P0 rs0 ns0 Ps0 [[_ Hn0] Hi0] _ IH]; constructor; [split; assumption|assumption].
+          -- lia.
+          -- constructor; [exact Hi|constructor].
+  Qed.
+
+  (* an alternation of terms, as make_alt builds it *)
+  Theorem nested_alternation kr kn : forall rs ns Ps, Forall3 (fun r n P => gden r n P kr kn) rs ns Ps -> rs <> [] ->
+    forall fuel, (length ns <= fuel)%nat ->
+    gden (alt_of rs) (make_alt fuel ns) (catP Ps) (kr + length rs) (kn + fuel).
+  Proof.
+    intros rs ns Ps H3 Hne fuel Hfuel.
+    assert (Hln : length ns = length rs) by (clear - H3; induction H3; cbn [length]; congruence).
+    split.
+    - destruct (make_alt_tree foldf unicode fuel ns) as (t & Et & Lt & Dt).
+      { destruct ns; [destruct rs; [contradiction|discriminate Hln]|discriminate]. }
+      { exact Hfuel. }
+      rewrite Et. apply (den_weaken foldf unicode utf16 cs eqclass _ _ _ (kr + length rs) (kn + depth t)); [lia|lia|].
+      apply alternation; [|exact Hne]. rewrite Lt. clear - H3. induction H3 as [|r n P rs ns Ps [Hd _] _ IH]; constructor; assumption.
+    - intros i Hi. unfold catP. clear - H3 Hi. induction H3 as [|r n P rs ns Ps [_ HP] _ IH]; [constructor|]. cbn [flat_map]. apply Forall_app. split; [apply HP; exact Hi|exact IH].
+  Qed.
+End Nest.
